@@ -183,6 +183,22 @@ class SymExec:
             if n.id in self.env:
                 return self.env[n.id]
             return Opaque(n.id)
+        if isinstance(n, ast.UnaryOp) and isinstance(n.op, ast.USub):
+            v = self.val(n.operand)
+            lv = as_lin(v) if not isinstance(v, Ite) else None
+            if lv is not None:
+                return Lin(-lv.c, {t: -c for t, c in lv.t.items()})
+        if isinstance(n, ast.Attribute) and n.attr in ("start", "stop"):
+            base = self.val(n.value)
+            if isinstance(base, Slice):
+                return base.lo if n.attr == "start" else base.hi
+        if isinstance(n, ast.BinOp) and isinstance(n.op, ast.Mult):
+            a, b = self.val(n.left), self.val(n.right)
+            for k_, v_ in ((a, b), (b, a)):
+                if isinstance(k_, Lin) and not k_.t:
+                    lv = as_lin(v_) if not isinstance(v_, Ite) else None
+                    if lv is not None:
+                        return Lin(k_.c * lv.c, {t: k_.c * c for t, c in lv.t.items()})
         if isinstance(n, ast.BinOp) and isinstance(n.op, (ast.Add, ast.Sub)):
             r = add(self.val(n.left), self.val(n.right), 1 if isinstance(n.op, ast.Add) else -1)
             if r is not None:
